@@ -76,3 +76,14 @@ package splitcarfetcher
 //@   loop 0 invariant rangeidx0 < len(m.offsets) ==> m.offsets[rangeidx0] <= off && int(off) == int(old(off)) + totalN
 //@   loop 0 invariant rangeidx0 < len(m.offsets) ==> forall x int :: x >= int(off) ==> catAt(m, x, 0) == catAt(m, x, rangeidx0)
 //@   loop 0 use forall x int :: unfold(catAt(m, x, rangeidx0))
+
+// ---- remote piece reads (C17: a short remote answer is an error, never padded, never cached as success) ----
+// remoteReadAt: one HTTP range request. The HTTP client and the retry helper are external / abstracted (noframe); what is
+// stated is the clause the range cache relies on (it ignores the byte count of its fetcher): a nil error means p was filled
+// COMPLETELY from the response body; a body that ends early is an error.
+//@ func remoteReadAt
+//@   mode int
+//@   requires client != nil
+//@   ensures result1 == nil ==> result0 == len(p)
+//@   ensures result1 != nil ==> result0 == 0
+//@   noframe
